@@ -827,4 +827,56 @@ func crossFacts(s *src, f *facts) {
 	}
 	f.b("clFreeNeverWaits", neverWaits, s.pos(rc))
 
+	// clStoresCreatedClosure: what registerClosure puts into the table IS createClosure's wrapper — not a further
+	// wrapper around it (a per-closure mutex "so that invocations do not race" serialises invocations: a stalled
+	// one blocks the others, a re-entrant one deadlocks; a WaitGroup counts them; a cache shares them)
+	stores := false
+	if rc != nil {
+		created := ""
+		for _, a := range all[*ast.AssignStmt](rc.Body, nil) {
+			if len(a.Rhs) == 1 && len(a.Lhs) >= 1 && len(s.callsTo(a.Rhs[0], "createClosure")) == 1 {
+				if c, ok := a.Rhs[0].(*ast.CallExpr); ok && s.str(c.Fun) == "createClosure" {
+					created = s.str(a.Lhs[0])
+				}
+			}
+		}
+		n := 0
+		for _, a := range all[*ast.AssignStmt](rc.Body, nil) {
+			if len(a.Lhs) == 1 && len(a.Rhs) == 1 && strings.HasSuffix(strings.SplitN(s.str(a.Lhs[0]), "[", 2)[0], ".closures") && strings.Contains(s.str(a.Lhs[0]), "[") {
+				n++
+				stores = created != "" && s.str(a.Rhs[0]) == created
+			}
+		}
+		stores = stores && n == 1
+	}
+	f.b("clStoresCreatedClosure", stores, s.pos(rc))
+
+	// clConvertsEveryArg: the wrapper converts EVERY argument with convertValue — the call is one of the conversion
+	// loop's own statements and nothing `continue`s past it (a fast path for "already the right type" looks at
+	// `reflect.ValueOf(arg).Type()`, which panics for the untyped nil a `null` argument decodes to)
+	every := false
+	if cc := s.funcDecl("", "createClosure"); cc != nil {
+		for _, l := range all[*ast.RangeStmt](cc.Body, nil) {
+			if s.str(l.X) != "args" {
+				continue
+			}
+			direct := false
+			for _, st := range l.Body.List {
+				if a, ok := st.(*ast.AssignStmt); ok && len(a.Rhs) == 1 {
+					if c, ok := a.Rhs[0].(*ast.CallExpr); ok && s.str(c.Fun) == "convertValue" {
+						direct = true
+					}
+				}
+			}
+			skips := false
+			for _, b := range all[*ast.BranchStmt](l.Body, nil) {
+				if b.Tok == token.CONTINUE || b.Tok == token.BREAK {
+					skips = true
+				}
+			}
+			every = direct && !skips
+		}
+	}
+	f.b("clConvertsEveryArg", every, "")
+
 }
